@@ -371,6 +371,41 @@ func uncOps(r *rng.R, n int) []opSpec {
 	return ops
 }
 
+// feeOps: Redistribute over a spread of fee rates (0, 1 H, typical, the manager's
+// minimum recommendation, large) with amounts computed so that the change of
+// the transaction lands on 0, 1 H, feePerInput-1, feePerInput, feePerInput+1 or
+// well above; every returned transaction is signed and submitted.
+var feeRates = []string{"0", "1", "10000000000000000", "10000000000000000000", "40000000000000000000"}
+var changeTargets = []string{"0", "1", "fpi-1", "fpi", "fpi+1", "big"}
+
+func feeOps(r *rng.R, i int) []opSpec {
+	var ops []opSpec
+	rate := feeRates[i%len(feeRates)]
+	for n := 0; n < 3; n++ {
+		c := changeTargets[(i/len(feeRates)+2*n+i)%len(changeTargets)]
+		j := 1 + r.Intn(2)
+		if c == "0" {
+			j = 0 // a change of exactly zero needs every usable output as input
+		}
+		k := 1
+		if r.Chance(1, 3) {
+			k = 2 + r.Intn(2)
+		}
+		ops = append(ops, opSpec{Kind: "redist", Outputs: k, Amount: fmt.Sprintf("R:%d:%s", j, c), FeePerB: rate},
+			opSpec{Kind: "broadcast", Ref: -1, ViaWallet: r.Bool()})
+		if k > 1 {
+			ops = append(ops, opSpec{Kind: "broadcast", Ref: -2})
+		}
+		ops = append(ops, opSpec{Kind: "mine", ToWallet: r.Chance(1, 4)})
+	}
+	if r.Bool() {
+		n := 2 + r.Intn(2)
+		ops = append(ops, opSpec{Kind: "split", N: n, Min: fmt.Sprintf("d%d", n+2+r.Intn(5))}, opSpec{Kind: "mine"})
+	}
+	ops = append(ops, opSpec{Kind: "redist", Outputs: 11 + r.Intn(4), Amount: fmt.Sprint(1+r.Intn(6)) + unit, FeePerB: rate}, opSpec{Kind: "broadcast", Ref: -1}, opSpec{Kind: "broadcast", Ref: -2})
+	return ops
+}
+
 // c07Corpus: minimised earlier failures, run first.
 func c07Corpus() []caseSpec {
 	v := func(ks ...int) []string {
@@ -406,6 +441,11 @@ func c07Corpus() []caseSpec {
 		{Name: "corpus-outstanding-unconfirmed-v1", Cfg: cfgSpec{Thresh: 3, MaxIn: 5, MaxDefrag: 2}, Setup: setupSpec{Values: v(40, 20), Seed: 18},
 			Ops: []opSpec{{Kind: "fund", Amount: "1"}, {Kind: "broadcast", Ref: -1}, {Kind: "fund", Amount: "1"}, {Kind: "broadcast", Ref: -1},
 				{Kind: "fund", Amount: "2", Unc: true}, {Kind: "fund", Amount: "2", Unc: true}, {Kind: "fund", Amount: "2", Unc: true}}},
+		// Redistribute with a fee: change of 1 H and of exactly the fee of one input
+		{Name: "corpus-redistribute-small-change", Cfg: cfgSpec{Thresh: 30, MaxIn: 30, MaxDefrag: 10}, Setup: setupSpec{Values: v(90, 60, 35, 20), Seed: 19},
+			Ops: []opSpec{{Kind: "redist", Outputs: 1, Amount: "R:1:1", FeePerB: "10000000000000000"}, {Kind: "broadcast", Ref: -1}, {Kind: "mine"},
+				{Kind: "redist", Outputs: 1, Amount: "R:1:fpi", FeePerB: "10000000000000000000"}, {Kind: "broadcast", Ref: -1}, {Kind: "mine"},
+				{Kind: "redist", Outputs: 1, Amount: "R:0:0", FeePerB: "1"}, {Kind: "broadcast", Ref: -1}}},
 		// unconfirmed outputs, redistribute, split
 		{Name: "corpus-unconfirmed-redistribute-split", Cfg: cfgSpec{Thresh: 5, MaxIn: 30, MaxDefrag: 10}, Setup: setupSpec{Values: v(300, 90, 40, 15), Seed: 15},
 			Ops: []opSpec{{Kind: "fund", V2: true, Amount: "p1-1"}, {Kind: "broadcast", Ref: -1}, {Kind: "fund", V2: true, Amount: "bal+1", Unc: true}, {Kind: "fund", V2: true, Amount: "p1", Unc: true, ThenRelease: true},
@@ -469,7 +509,7 @@ func shrinkCase(spec caseSpec, kind string) (caseSpec, failure) {
 
 func runC07(c *hx.Ctx) {
 	res := c.Res
-	res.Rule = "a case = options (from the 4x4x4x2 grid of DefragThreshold, MaxInputsForDefrag, MaxDefragUTXOs, ReservationDuration) + a mined wallet state (0-8 mature outputs with distinct or tied values, 0-2 immature) + an operation sequence over FundTransaction/FundV2Transaction (amount grid: 0, 1, prefix sums +-1, balance, balance+1; useUnconfirmed; pre-existing inputs), ReleaseInputs, sign+submit to the pool (v1, v2, through the wallet), Redistribute, SplitUTXO, mined blocks, blocks that reach the manager but not yet the wallet store (1, 5, 40 blocks behind) with funding, signing and submitting inside that window, several useUnconfirmed requests outstanding at once over unconfirmed outputs of the wallet's own pooled transactions, wallet/manager restarts, expiry; non-trivial := at least one call selected inputs and the sequence has at least three operations; distinct by the abstract case"
+	res.Rule = "a case = options (from the 4x4x4x2 grid of DefragThreshold, MaxInputsForDefrag, MaxDefragUTXOs, ReservationDuration) + a mined wallet state (0-8 mature outputs with distinct or tied values, 0-2 immature) + an operation sequence over FundTransaction/FundV2Transaction (amount grid: 0, 1, prefix sums +-1, balance, balance+1; useUnconfirmed; pre-existing inputs), ReleaseInputs, sign+submit to the pool (v1, v2, through the wallet), Redistribute (fee rates 0, 1 H, 1e16, 1e19, 4e19 per byte; amounts computed so the change is 0, 1 H, feePerInput-1, feePerInput, feePerInput+1, large), SplitUTXO, mined blocks, blocks that reach the manager but not yet the wallet store (1, 5, 40 blocks behind) with funding, signing and submitting inside that window, several useUnconfirmed requests outstanding at once over unconfirmed outputs of the wallet's own pooled transactions, wallet/manager restarts, expiry; non-trivial := at least one call selected inputs and the sequence has at least three operations; distinct by the abstract case"
 	if os.Getenv("C07_SOAK_ONLY") != "" {
 		soak(c)
 		return
@@ -503,7 +543,7 @@ func runC07(c *hx.Ctx) {
 
 	var specs []caseSpec
 	specs = append(specs, c07Corpus()...)
-	nGrid, nRand, nTies := c.Scale(128, 1280), c.Scale(110, 3000), c.Scale(40, 800)
+	nGrid, nRand, nTies := c.Scale(128, 1280), c.Scale(95, 3000), c.Scale(35, 800)
 	for i := 0; i < nGrid; i++ {
 		r := c.R.Fork()
 		s := caseSpec{Name: fmt.Sprintf("grid-%d", i), Cfg: gridCfg(i + int(c.Seed)), Setup: genSetup(r, false, 8), Probe: r.Chance(1, 3)}
@@ -558,6 +598,20 @@ func runC07(c *hx.Ctx) {
 				s.Cfg.Thresh = 30 // SplitUTXO refuses n > DefragThreshold
 			}
 		}
+		specs = append(specs, s)
+	}
+
+	nFee := c.Scale(30, 300)
+	for i := 0; i < nFee; i++ {
+		r := c.R.Fork()
+		s := caseSpec{Name: fmt.Sprintf("fee-%d", i), Cfg: gridCfg(r.Intn(64)), Setup: genSetup(r, false, 6)}
+		s.Cfg.Short = false
+		s.Cfg.Thresh = []int{3, 30}[r.Intn(2)]
+		if len(s.Setup.Values) < 3 {
+			s.Setup.Values = []string{"211" + unit, "97" + unit, "55" + unit, "30" + unit}
+		}
+		s.Setup.Immature = 0
+		s.Ops = feeOps(r, i+int(c.Seed))
 		specs = append(specs, s)
 	}
 
@@ -628,7 +682,7 @@ func runC07(c *hx.Ctx) {
 	for i := 0; i < 2 && i < len(results); i++ {
 		res.Sample(map[string]any{"case": results[len(c07Corpus())+i].spec})
 	}
-	res.Explored = map[string]any{"option_grid": "4x4x4x2 (every combination at least once in the grid stream)", "grid_cases": nGrid, "random_cases": nRand, "tie_cases": nTies, "store_behind_manager_cases": nLag, "outstanding_unconfirmed_cases": nUnc, "store_behind_by_blocks": "1, 5, 40"}
+	res.Explored = map[string]any{"option_grid": "4x4x4x2 (every combination at least once in the grid stream)", "grid_cases": nGrid, "random_cases": nRand, "tie_cases": nTies, "store_behind_manager_cases": nLag, "outstanding_unconfirmed_cases": nUnc, "redistribute_fee_cases": nFee, "fee_rates_per_byte": feeRates, "change_targets": changeTargets, "store_behind_by_blocks": "1, 5, 40"}
 	soak(c)
 	// several small files: bin/check evaluates them in parallel, and Coq's
 	// elaboration of the literal case terms dominates the cost
